@@ -94,6 +94,8 @@ func genSrvReq(g *simrt.Tape) *ReqSc {
 			it.Op = "discover"
 		case 5:
 			it.Op = "unknown"
+		case 6:
+			it.Op = []string{"destroy", "archive", "recover", "revoke"}[g.Draw(4)]
 		}
 		rs.Items = append(rs.Items, it)
 	}
